@@ -158,6 +158,52 @@ func c18(c *h.Ctx) {
 	ol.Switch(sink)
 	defer ol.Close()
 
+	// The very first lines of the process come from several goroutines at once (a server that starts its listeners
+	// and workers together): 16 goroutines held at a barrier each create a context and log through all four levels.
+	// Whatever the package sets up on first use is set up here, under the race detector when the harness is built
+	// with it. Every line is whole and carries its goroutine's id.
+	{
+		const G = 16
+		var ready, done sync.WaitGroup
+		gate := make(chan struct{})
+		cids := make([]int, G)
+		for g := 0; g < G; g++ {
+			ready.Add(1)
+			done.Add(1)
+			go func(g int) {
+				defer done.Done()
+				ready.Done()
+				<-gate
+				ctx := ol.WithContext(context.Background())
+				cids[g], _ = ol.VerifCid(ctx)
+				ol.T(ctx, "first", g)
+				ol.Wf(ctx, "first %d", g)
+				ol.E(ctx, "first", g)
+				ol.Tf(nil, "first nil %d", g)
+			}(g)
+		}
+		ready.Wait()
+		close(gate)
+		done.Wait()
+		lines := sink.take()
+		seen := map[string]int{}
+		for _, l := range lines {
+			seen[string(l)]++
+		}
+		okAll := len(lines) == 4*G
+		for g := 0; g < G && okAll; g++ {
+			n := 0
+			for l := range seen {
+				if strings.Contains(l, fmt.Sprintf("[%d][%d] first %d\n", pid, cids[g], g)) {
+					n++
+				}
+			}
+			okAll = n == 3
+		}
+		c.Hold(okAll, "one_line.first_lines_of_the_process", "16 goroutines released together, each: WithContext, T, Wf, E with its context and Tf(nil)", fmt.Sprintf("%d lines", len(lines)), "64 whole lines, three per goroutine with its id")
+		c.Case("first-lines", "16", true)
+	}
+
 	// ------------------------------------------------------------ 0. the discipline (gate seen from the harness)
 	mode := c.O.Call("logger.mode")
 	alloc := "a1" // one allocation by goroutine 1 in the model's op language
